@@ -442,6 +442,16 @@ static bool has_flonum2(Type *ty) {
   return has_flonum(ty, 8, 16, 0);
 }
 
+// Counts the general-purpose and SSE registers needed to pass a
+// struct or union of at most 16 bytes: one register per 8-byte chunk.
+static void struct_regs(Type *ty, int *ngp, int *nfp) {
+  bool fp1 = has_flonum1(ty);
+  bool fp2 = has_flonum2(ty);
+  bool two = ty->size > 8;
+  *nfp = fp1 + (two && fp2);
+  *ngp = !fp1 + (two && !fp2);
+}
+
 static void push_struct(Type *ty) {
   int sz = align_to(ty->size, 8);
   println("  sub $%d, %%rsp", sz);
@@ -520,12 +530,12 @@ static int push_args(Node *node) {
         arg->pass_by_stack = true;
         stack += align_to(ty->size, 8) / 8;
       } else {
-        bool fp1 = has_flonum1(ty);
-        bool fp2 = has_flonum2(ty);
+        int ngp, nfp;
+        struct_regs(ty, &ngp, &nfp);
 
-        if (fp + fp1 + fp2 < FP_MAX && gp + !fp1 + !fp2 < GP_MAX) {
-          fp = fp + fp1 + fp2;
-          gp = gp + !fp1 + !fp2;
+        if (fp + nfp < FP_MAX && gp + ngp < GP_MAX) {
+          fp = fp + nfp;
+          gp = gp + ngp;
         } else {
           arg->pass_by_stack = true;
           stack += align_to(ty->size, 8) / 8;
@@ -903,8 +913,10 @@ static void gen_expr(Node *node) {
 
         bool fp1 = has_flonum1(ty);
         bool fp2 = has_flonum2(ty);
+        int ngp, nfp;
+        struct_regs(ty, &ngp, &nfp);
 
-        if (fp + fp1 + fp2 < FP_MAX && gp + !fp1 + !fp2 < GP_MAX) {
+        if (fp + nfp < FP_MAX && gp + ngp < GP_MAX) {
           if (fp1)
             popf(fp++);
           else
@@ -1329,11 +1341,11 @@ static void assign_lvar_offsets(Obj *prog) {
       case TY_STRUCT:
       case TY_UNION:
         if (ty->size <= 16) {
-          bool fp1 = has_flonum(ty, 0, 8, 0);
-          bool fp2 = has_flonum(ty, 8, 16, 0);
-          if (fp + fp1 + fp2 < FP_MAX && gp + !fp1 + !fp2 < GP_MAX) {
-            fp = fp + fp1 + fp2;
-            gp = gp + !fp1 + !fp2;
+          int ngp, nfp;
+          struct_regs(ty, &ngp, &nfp);
+          if (fp + nfp < FP_MAX && gp + ngp < GP_MAX) {
+            fp = fp + nfp;
+            gp = gp + ngp;
             continue;
           }
         }
